@@ -328,16 +328,31 @@ def run_zoo(c):
     return r
 
 
+BINARY_OPS = {'__add__': '+', '__sub__': '-', '__mul__': '*', '__matmul__': '@', '__or__': '|', '__and__': '&', '__eq__': '==', '__ne__': '!=',
+              '__lt__': '<', '__ge__': '>=', '__getitem__': '[]'}
+
+
+def render_result(v):
+    """the value a generated body returns: the universe plus the singletons a special method hands back"""
+    return NotImplemented if v == ['notimplemented'] else Ellipsis if v == ['ellipsis'] else U.render_val(v)
+
+
 def run_missing(c):
-    """a generated function with one missing / bare annotation, called by keyword with conforming arguments"""
+    """a generated function with one missing / bare annotation, called by keyword with conforming arguments.
+    names      the parameter names (default p0, p1 ...): cls / args / kwargs / mcs ... at the first and at later positions
+    posargs    the signature ends in `*args: int` and the call passes every value positionally, plus c['posargs'] - 1 extra ints
+    kind       def / async / method / dunder (a method of a plain class named c['dunder']: __add__, __eq__, __getitem__ ...;
+               with c['via_op'] the call is made by the operator)
+    ret_by_type  [[class name, result]]: the body returns that result when its first argument is of that class (value-dependent)"""
     ctx = U.real_ctx(c['ctx'])
     ns = dict(ctx)
     journal = []
     ns['J'] = journal
-    parts, kwargs = [], {}
+    parts, kwargs, posvals = [], {}, []
     n = len(c['params'])
+    names = c.get('names') or [f'p{i}' for i in range(n)]
     for i, p in enumerate(c['params']):
-        s = f'p{i}'
+        s = names[i]
         if i == c['miss']:
             if c['bare']:
                 ns[f'A{i}'] = getattr(__import__('typing'), c['bare']) if c['bare'][0].isupper() else __builtins__[c['bare']] if isinstance(__builtins__, dict) else getattr(__builtins__, c['bare'])
@@ -350,35 +365,50 @@ def run_missing(c):
             ns[f'D{i}'] = val
             s += f' = D{i}'
         parts.append(s)
+        posvals.append(val)
         if not (p['default'] and p.get('omit')):
-            kwargs[f'p{i}'] = val
+            kwargs[names[i]] = val
+    if c.get('posargs'):
+        parts.append('*args: int')
+        posvals += list(range(c['posargs'] - 1))
     ret = ' -> None'
     if c['miss'] == n:
         ret = ''
         if c['bare']:
             ns['R'] = getattr(__import__('typing'), c['bare']) if c['bare'][0].isupper() else (__builtins__[c['bare']] if isinstance(__builtins__, dict) else getattr(__builtins__, c['bare']))
             ret = ' -> R'
-    ns['RV'] = U.render_val(c['ret_val']) if c['miss'] == n else None
+    ns['RV'] = render_result(c['ret_val']) if c['miss'] == n else None
+    ns['RMAP'] = {t: render_result(v) for t, v in (c.get('ret_by_type') or [])} if c['miss'] == n else {}
     sig = ', '.join(parts)
-    if c['kind'] == 'method':
-        src = (f'from pedantic import pedantic\nclass K:\n    @pedantic\n    def f(self, {sig}){ret}:\n        J.append(1)\n        return RV\n')
+    result = f'RMAP.get(type({names[0]}).__name__, RV)' if n else 'RV'
+    fname = c.get('dunder') if c['kind'] == 'dunder' else 'f'
+    if c['kind'] in ('method', 'dunder'):
+        src = (f'from pedantic import pedantic\nclass K:\n    @pedantic\n    def {fname}(self, {sig}){ret}:\n        J.append(1)\n        return {result}\n')
     else:
-        src = (f'from pedantic import pedantic\n@pedantic\n{"async " if c["kind"] == "async" else ""}def f({sig}){ret}:\n    J.append(1)\n    return RV\n')
+        src = (f'from pedantic import pedantic\n@pedantic\n{"async " if c["kind"] == "async" else ""}def f({sig}){ret}:\n    J.append(1)\n    return {result}\n')
     r = {}
     try:
         mod = make_module(src, ns)
     except BaseException as ex:
         r['out'], r['exc'] = 9, 'decoration failed: ' + repr(ex)[:100]
         return r
-    if c['kind'] == 'method':
-        call = lambda: mod.K().f(**kwargs)
+    if c['kind'] == 'dunder' and c.get('via_op') and n == 1 and fname in BINARY_OPS:
+        op, v0 = BINARY_OPS[fname], posvals[0]
+        ns2 = {'k': None, 'v': v0}
+
+        def call():
+            ns2['k'] = mod.K()
+            return eval('k[v]' if op == '[]' else f'k {op} v', ns2)
+    elif c['kind'] in ('method', 'dunder'):
+        call = (lambda: getattr(mod.K(), fname)(*posvals)) if c.get('posargs') else (lambda: getattr(mod.K(), fname)(**kwargs))
     elif c['kind'] == 'async':
         import asyncio
-        call = lambda: asyncio.run(mod.f(**kwargs))
+        call = (lambda: asyncio.run(mod.f(*posvals))) if c.get('posargs') else (lambda: asyncio.run(mod.f(**kwargs)))
     else:
-        call = lambda: mod.f(**kwargs)
+        call = (lambda: mod.f(*posvals)) if c.get('posargs') else (lambda: mod.f(**kwargs))
     r['out'], r['exc'] = outcome_rep(call)
     r['body_ran'] = len(journal)
+    r['src'] = src.split('\n', 1)[1][:300]
     return r
 
 
@@ -565,6 +595,104 @@ def _variadic_calls():
 
 
 CORNER_CALLS += _variadic_calls()
+
+# generator functions: the object a @pedantic / @pedantic_class generator function hands out must speak the whole generator
+# protocol of the plain generator it wraps - next / send / close and throw in its three legal call forms throw(exc),
+# throw(ExcType, exc), throw(ExcType, exc, tb) (the latter two deprecated since 3.12, still legal) - driven directly and
+# through an outer plain generator that delegates with `yield from`; the bodies HANDLE the thrown exception, so a plain
+# generator answers every row with a value (or StopIteration / the body's own exception): nothing of the wrapper's own
+CORNER_GEN_SRC = '''
+from typing import Generator, Iterator, Iterable
+from pedantic import pedantic, pedantic_class
+@pedantic
+def gen_g(limit: int) -> Generator[int, None, None]:
+    i = 0
+    while i < limit:
+        try:
+            yield i
+            i += 1
+        except ValueError:
+            yield -1
+@pedantic
+def gen_i(limit: int) -> Iterator[int]:
+    try:
+        yield 1
+        yield limit
+    except (KeyError, ValueError):
+        yield 0
+@pedantic
+def gen_s(limit: int) -> Generator[int, int, str]:
+    got = 0
+    try:
+        got = yield 1
+        got = yield got
+    except ValueError:
+        yield -1
+    return 'done'
+@pedantic_class
+class GK:
+    def numbers(self) -> Iterator[int]:
+        try:
+            yield 1
+            yield 2
+        except KeyError:
+            yield 0
+    def pairs(self, limit: int) -> Generator[int, None, None]:
+        for i in range(limit):
+            try:
+                yield i
+            except ValueError:
+                yield -1
+def deleg(inner):
+    r = yield from inner
+    return r
+'''
+
+
+def _gen_rows():
+    import sys as _s, warnings
+    makers = {'gen_g(limit=3)': lambda m: m.gen_g(limit=3), 'gen_i(limit=3)': lambda m: m.gen_i(limit=3),
+              'gen_s(limit=3)': lambda m: m.gen_s(limit=3), 'GK().numbers()': lambda m: m.GK().numbers(),
+              'GK().pairs(limit=2)': lambda m: m.GK().pairs(limit=2)}
+    excs = {'gen_g(limit=3)': ValueError, 'gen_i(limit=3)': KeyError, 'gen_s(limit=3)': ValueError, 'GK().numbers()': KeyError,
+            'GK().pairs(limit=2)': ValueError}
+
+    def tb():
+        try:
+            raise RuntimeError('for a traceback')
+        except RuntimeError:
+            return _s.exc_info()[2]
+    ops = {'next, next': lambda g, E: (next(g), next(g)),
+           'next, send(5)': lambda g, E: (next(g), g.send(5)),
+           'next, close()': lambda g, E: (next(g), g.close()),
+           'close() before the first next': lambda g, E: g.close(),
+           'next, throw(E("x"))': lambda g, E: (next(g), g.throw(E('x'))),
+           'next, throw(E, E("x"))': lambda g, E: (next(g), g.throw(E, E('x'))),
+           'next, throw(E, E("x"), None)': lambda g, E: (next(g), g.throw(E, E('x'), None)),
+           'next, throw(E, E("x"), tb)': lambda g, E: (next(g), g.throw(E, E('x'), tb())),
+           'next, throw(E, "x")': lambda g, E: (next(g), g.throw(E, 'x')),
+           'next, throw(E)': lambda g, E: (next(g), g.throw(E)),
+           'next, throw(E("x")), next': lambda g, E: (next(g), g.throw(E('x')), next(g)),
+           'list(...)': lambda g, E: list(g)}
+    out = []
+    for mn, mk in makers.items():
+        for on, op in ops.items():
+            for via in ('', 'yield from '):
+                def row(m, mk=mk, op=op, via=via, mn=mn):
+                    def drive(g):
+                        with warnings.catch_warnings():
+                            warnings.simplefilter('ignore', DeprecationWarning)
+                            return op(g, excs[mn])
+                    # reference: the same body without pedantic.  Only rows the PLAIN generator answers without an exception
+                    # of its own are judged (the rest - e.g. send(5) into Iterator[int] is the body's business - is observed
+                    # on the wrapper against the same exception class)
+                    g = mk(m)
+                    return drive(m.deleg(g) if via else g)
+                out.append((f'{via}{mn}: {on}', row))
+    return out
+
+
+CORNER_GEN_ROWS = _gen_rows()
 _corner = {}
 
 
@@ -572,12 +700,35 @@ def run_corner(c):
     """keyword calls Python accepts, on callables whose SOURCE TEXT / receiver handling trips the wrapper's heuristics;
     only the class of the outcome is observed"""
     if c.get('size'):
-        return {'size': len(CORNER_CALLS)}
+        return {'size': len(CORNER_CALLS) + len(CORNER_GEN_ROWS)}
     if 'mod' not in _corner:
         _corner['mod'] = make_module(CORNER_SRC, {})
+    if c['i'] >= len(CORNER_CALLS):
+        return run_corner_gen(c['i'] - len(CORNER_CALLS))
     name, f = CORNER_CALLS[c['i']]
     r = {'name': name}
     r['out'], r['exc'] = outcome_rep(lambda: f(_corner['mod']))
+    return r
+
+
+def run_corner_gen(i):
+    """one row of the generator-protocol table.  The same source is loaded twice: as written (pedantic) and with the two
+    decorators replaced by the identity (the plain generators).  What the plain generator answers is the reference: the
+    wrapper may answer the same way or with a PedanticException, never with another exception of its own"""
+    if 'gen' not in _corner:
+        _corner['gen'] = make_module(CORNER_GEN_SRC, {})
+        plain_src = CORNER_GEN_SRC.replace('from pedantic import pedantic, pedantic_class', 'pedantic = pedantic_class = lambda x: x')
+        _corner['gen_plain'] = make_module(plain_src, {})
+    name, row = CORNER_GEN_ROWS[i]
+    r = {'name': name}
+    ref_out, ref_exc = outcome(lambda: row(_corner['gen_plain']))
+    out, exc = outcome(lambda: row(_corner['gen']))
+    r['ref'] = ref_exc
+    if out in (4, 5) and ref_out == out and (ref_exc or '').split(':')[0] == (exc or '').split(':')[0]:
+        # the body's own exception (StopIteration after the last value, the TypeError CPython raises for throw(E, E("x")) with
+        # a non-exception ...): the undecorated generator raises the same class, so it is not the wrapper's
+        out, exc = 0, None
+    r['out'], r['exc'] = out, exc
     return r
 
 
